@@ -739,8 +739,15 @@ def adict_get(it, d, key, lineno):
     raise PyRaise("KeyError", "key", lineno)
 
 
+def simp_int(z):
+    from .interp import simp
+
+    z = simp(z) if isinstance(z, SV) else z
+    return z
+
+
 def setitem(it, obj, key, v):
-    from .interp import I as toI
+    from .interp import I as toI, SliceVal
 
     if isinstance(obj, SymList):
         i = norm_index(it, obj, key)
@@ -752,6 +759,19 @@ def setitem(it, obj, key, v):
             obj.size = z3.simplify(obj.size + z3.If(z3.Select(obj.has, k), 0, 1))
         obj.has = z3.Store(obj.has, k, z3.BoolVal(True))
         obj.val = z3.Store(obj.val, k, it.unwrap(v, obj.vty))
+        return
+    if isinstance(obj, list) and isinstance(key, SliceVal):
+        # lst[a:b] = iterable with concrete bounds (python semantics of slice assignment)
+        lo, hi, st = (simp_int(z) for z in (key.lo, key.hi, key.step))
+        if any(isinstance(z, SV) for z in (lo, hi, st)):
+            raise Unsupported("slice assignment with symbolic bounds")
+        items = [v] if False else (list(v) if isinstance(v, (str, list, tuple)) else concrete_iter(it, v))
+        if items is None:
+            raise Unsupported("slice assignment from a symbolic iterable")
+        try:
+            obj[slice(lo, hi, st)] = items
+        except ValueError as e:
+            raise PyRaise("ValueError", str(e))
         return
     if isinstance(obj, list):
         if isinstance(key, int):
